@@ -40,7 +40,18 @@ fn run_raw(dir: &Path) -> Raw {
 }
 
 fn norm(p: &Path) -> PathBuf {
-    p.components().filter(|c| !matches!(c, Component::CurDir)).collect()
+    // lexical normalisation: drop `.`, resolve `x/..`
+    let mut out: Vec<Component> = vec![];
+    for c in p.components() {
+        match c {
+            Component::CurDir => {}
+            Component::ParentDir if matches!(out.last(), Some(Component::Normal(_))) => {
+                out.pop();
+            }
+            c => out.push(c),
+        }
+    }
+    out.iter().collect()
 }
 
 #[derive(Clone, Debug)]
@@ -186,7 +197,19 @@ pub fn run(tier: Tier) -> i32 {
             inherits.push(vec![(k1.into(), v1.into()), (k2.into(), v2.into())]);
         }
     }
-    let dirs: Vec<Option<String>> = vec![None, Some("./l10n".into()), Some("a/b/".into()), Some("l10n/".into()), Some("locales".into())];
+    // (`<ABS>` stands for an absolute path inside the worker's scratch directory)
+    let dirs: Vec<Option<String>> = vec![
+        None,
+        Some("./l10n".into()),
+        Some("a/b/".into()),
+        Some("l10n/".into()),
+        Some("locales".into()),
+        Some("../shared_l10n".into()),
+        Some(".hidden".into()),
+        Some("./.dot/x".into()),
+        Some("..//up".into()),
+        Some("<ABS>".into()),
+    ];
     let mut cases: Vec<Case> = vec![];
     let mut k = 0usize;
     for l in &lists {
@@ -229,8 +252,15 @@ pub fn run(tier: Tier) -> i32 {
     let classes = Mutex::new(BTreeMap::<String, u64>::new());
     let nontriv = Mutex::new(BTreeSet::<String>::new());
     par_for_chunked(cases.len(), 32, |w, i| {
-        let c = &cases[i];
-        let dir = scratch.worker(w);
+        // the project sits one level below the worker's directory so that `../x` stays inside it
+        let wdir = scratch.worker(w);
+        let _ = std::fs::remove_dir_all(&wdir);
+        let dir = wdir.join("proj");
+        let mut case = cases[i].clone();
+        if case.cfg.locales_dir.as_deref() == Some("<ABS>") {
+            case.cfg.locales_dir = Some(wdir.join("abs_l10n").display().to_string());
+        }
+        let c = &case;
         let expected_files = materialise(c, &dir, ext);
         let raw = run_raw(&dir);
         let exp = expectation(&c.cfg);
@@ -306,7 +336,7 @@ pub fn run(tier: Tier) -> i32 {
         rep.sample(json!({"manifest": manifest(&cases[j].cfg, cases[j].surround), "expectation": format!("{:?}", expectation(&cases[j].cfg))}));
     }
     let mut cov = serde_json::Map::new();
-    cov.insert("rule".into(), json!("locales in {missing} + every list of length 0..=3 over {en,fr,de} (duplicates included) x default in {en,fr,de,it (unlisted),missing} x namespaces in {absent,[a],[a,b],[b,a],[a,a],[]} x inherits in {none} + every single entry over {en,fr,de,it,xx}^2 (thorough: + five 2-entry maps) x (locales-dir in {absent,./l10n,a/b/,l10n/,locales} x 5 surrounding-manifest shapes x unknown fields: rotated in quick, a third of the product in thorough); the directory holds valid files for exactly the expected (namespace, locale) pairs and unparsable decoys everywhere else (other extension, unlisted locale/namespace, default dir when a custom one is set, top-level vs namespace layout); oracle: accept iff required fields present, no duplicates, inherits names known locales (the default counts even if unlisted) and not the default as key; on accept default first, same set, fields as written, tracked files == expected paths; distinct_nontrivial = distinct i18n tables"));
+    cov.insert("rule".into(), json!("locales in {missing} + every list of length 0..=3 over {en,fr,de} (duplicates included) x default in {en,fr,de,it (unlisted),missing} x namespaces in {absent,[a],[a,b],[b,a],[a,a],[]} x inherits in {none} + every single entry over {en,fr,de,it,xx}^2 (thorough: + five 2-entry maps) x (locales-dir in {absent,./l10n,a/b/,l10n/,locales,../shared_l10n,.hidden,./.dot/x,..//up,an absolute path} x 5 surrounding-manifest shapes x unknown fields: rotated in quick, a third of the product in thorough); the directory holds valid files for exactly the expected (namespace, locale) pairs and unparsable decoys everywhere else (other extension, unlisted locale/namespace, default dir when a custom one is set, top-level vs namespace layout); oracle: accept iff required fields present, no duplicates, inherits names known locales (the default counts even if unlisted) and not the default as key; on accept default first, same set, fields as written, tracked files == expected paths; distinct_nontrivial = distinct i18n tables"));
     cov.insert("exhaustive".into(), json!(true));
     cov.insert("outcome_classes".into(), json!(*classes.lock().unwrap()));
     cov.insert("front_end".into(), json!(ext));
